@@ -62,6 +62,8 @@ class OtsuAndAffine(Bounded):
             sm = pde.ScalarField(grid, base).smooth(1.5).data
             base = np.round(sm * 256) / 256
             k, m = int(rng.integers(-3, 6)), float(rng.integers(-40, 40))
+            if t % 5 == 4:
+                k, m = -16, 1024.0        # low contrast on a large offset (still exact: 11 + 24 bits): the image is NOT uniform
             mapped = 2.0 ** k * base + m
             f0, f1 = pde.ScalarField(grid, base), pde.ScalarField(grid, mapped)
             for rule in ("extrema", "auto", "mean", "otsu", 0.4375):
